@@ -36,7 +36,7 @@
 }
 //@end
 
-//@extract parser::ElementParser | src/parser/element.rs :: enum ElementParser | serves=C01
+//@extract parser::ElementParser | src/parser/element.rs :: enum ElementParser | serves=C01,C02,C03,C08,C12,C18
  #[derive(Clone, Copy)]
  pub enum ElementParser {
     /// The initial state (inside element, but outside of attribute value).
@@ -48,7 +48,7 @@
 }
 //@end
 
-//@extract parser::PiParser | src/parser/pi.rs :: struct PiParser | serves=C01
+//@extract parser::PiParser | src/parser/pi.rs :: struct PiParser | serves=C01,C02,C03,C08,C12,C18
  #[derive(Clone, Copy)]
  pub struct PiParser(
     /// A flag that indicates was the `bytes` in the previous attempt to find the
@@ -57,7 +57,7 @@
 );
 //@end
 
-//@extract parser::Parser | src/parser/mod.rs :: trait Parser | serves=C01,C02,C03,C18
+//@extract parser::Parser | src/parser/mod.rs :: trait Parser | serves=C01,C02,C03,C08,C12,C18
  pub trait Parser: Sized {
     /// index of the terminator of the construct when scanning `bytes` from this state
     spec fn end(&self, bytes: Seq<u8>) -> Option<int>;
@@ -99,7 +99,7 @@
 }
 //@end
 
-//@extract parser::ElementParser::impl | src/parser/element.rs :: impl Parser for ElementParser | serves=C01,C02,C03,C18
+//@extract parser::ElementParser::impl | src/parser/element.rs :: impl Parser for ElementParser | serves=C01,C02,C03,C08,C12,C18
 impl Parser for ElementParser {
     open spec fn end(&self, bytes: Seq<u8>) -> Option<int> { tag_end(*self, bytes) }
     open spec fn after(&self, bytes: Seq<u8>) -> Self { q_after(*self, bytes) }
@@ -160,7 +160,7 @@ impl Parser for ElementParser {
 }
 //@end
 
-//@extract parser::PiParser::impl | src/parser/pi.rs :: impl Parser for PiParser | serves=C01,C02,C03,C18
+//@extract parser::PiParser::impl | src/parser/pi.rs :: impl Parser for PiParser | serves=C01,C02,C03,C08,C12,C18
 impl Parser for PiParser {
     open spec fn end(&self, bytes: Seq<u8>) -> Option<int> { pi_end(self.0, bytes) }
     open spec fn after(&self, bytes: Seq<u8>) -> Self { PiParser(pi_last(self.0, bytes)) }
@@ -214,7 +214,7 @@ impl Parser for PiParser {
 }
 //@end
 
-//@extract reader::BangType | src/reader/mod.rs :: enum BangType | serves=C01,C03
+//@extract reader::BangType | src/reader/mod.rs :: enum BangType | serves=C01,C02,C03,C08,C12,C18
 #[derive(Clone, Copy)]
 pub enum BangType {
     /// <![CDATA[...]]>
@@ -227,7 +227,7 @@ pub enum BangType {
 //@end
 
 impl BangType {
-//@extract reader::BangType::new | src/reader/mod.rs :: impl BangType :: fn new | serves=C01,C03
+//@extract reader::BangType::new | src/reader/mod.rs :: impl BangType :: fn new | serves=C01,C02,C03,C08,C12,C18
  pub fn new(byte: Option<u8>) -> (r: Result<Self, SyntaxError>)
         ensures r == (match byte {
             Some(0x5b) => Ok::<BangType, SyntaxError>(BangType::CData),
@@ -245,7 +245,7 @@ impl BangType {
     }
 //@end
 
-//@extract reader::BangType::parse | src/reader/mod.rs :: impl BangType :: fn parse | serves=C01,C02,C03,C18
+//@extract reader::BangType::parse | src/reader/mod.rs :: impl BangType :: fn parse | serves=C01,C02,C03,C08,C12,C18
     #[verifier::loop_isolation(false)]
     pub fn parse<'b>(&mut self, buf: &[u8], chunk: &'b [u8]) -> (r: Option<(&'b [u8], usize)>)
         requires
@@ -361,7 +361,7 @@ impl BangType {
     }
 //@end
 
-//@extract reader::BangType::to_err | src/reader/mod.rs :: impl BangType :: fn to_err | serves=C01,C03
+//@extract reader::BangType::to_err | src/reader/mod.rs :: impl BangType :: fn to_err | serves=C01,C02,C03,C08,C12,C18
  pub fn to_err(&self) -> (r: SyntaxError)
         ensures r == self.spec_to_err()
  {
